@@ -322,7 +322,7 @@ def Bi(df, asof = None):
     if asof is None or is_bi(df):
         return df
     if is_series(df):
-        df = pd.DataFrame(df, columns = [_series])
+        df = df.to_frame(_series) ## pd.DataFrame(series, columns = [...]) SELECTS columns: a series carrying a name of its own became an empty table
     else:
         df = df.copy()
     if asof == 'shift':
